@@ -274,12 +274,12 @@ impl<AnyLoader: Loader> Context<AnyLoader> {
             let (base, name) =
                 url.rfind('/').map_or(("", url), |p| url.split_at(p + 1));
 
-            for name in names.iter().map(|f| f(base, name)) {
-                if let Some(result) = self.loader.find_file(&name)? {
-                    return Ok(Some((name, result)));
-                }
-            }
-            Ok(None)
+            let mut names =
+                names.iter().map(|f| f(base, name)).collect::<Vec<_>>();
+            Ok(self
+                .loader
+                .find_first(&names)?
+                .map(|(i, file)| (names.swap_remove(i), file)))
         }
     }
 
